@@ -84,21 +84,3 @@ Proof. vm_compute. reflexivity. Qed.
 Theorem c19_run_once : forall s, wf_groups s -> for_groups check_C19_budget s (run_journals s) = true.
 Proof. exact run_passes_C19_budget. Qed.
 Print Assumptions c19_run_once.
-
-(* ---------- the tie to the source: GeneratedCtl.v is re-derived from the Go source on every run (harness gen --out-ctl);
-   the decisions this property rests on, as the code states them today, are the model's ---------- *)
-From Esc Require Import GeneratedCtl proofs.GenCtlAgree proofs.GenCtlAgree_AwsDel.
-
-(* aws.go DeleteNodes refuses exactly when the model's aws_delete_nodes does, and otherwise runs the model's loop *)
-Theorem c19_src_guard : forall a nodes fails,
-  match gen_DeleteNodes_guard a nodes with
-  | GRet [GE true] => exists er, aws_delete_nodes a nodes fails = ([], er, a) /\ (er = DelErrMin \/ er = DelErrBreach)
-  | GFall [] => (a_min a < a_desired a /\ a_min a <= a_desired a - zlen nodes /\ aws_delete_nodes a nodes fails = delete_loop a nodes fails)%Z
-  | _ => False
-  end.
-Proof. exact gen_DeleteNodes_guard_agree. Qed.
-Print Assumptions c19_src_guard.
-Theorem c19_src_guard_iff : forall a nodes,
-  gen_DeleteNodes_guard a nodes = GRet [GE true] <-> (a_desired a <= a_min a \/ a_desired a - zlen nodes < a_min a)%Z.
-Proof. exact gen_DeleteNodes_guard_iff. Qed.
-Print Assumptions c19_src_guard_iff.
